@@ -9,7 +9,7 @@ import random
 
 import z3
 
-from vlib import circ, circgen, symeval
+from vlib import circ, circgen, report, symeval
 from checks import passes
 from checks.common import REPLAY_PRELUDE
 
@@ -335,10 +335,18 @@ def unit(p, item, tier, seed):
     if s % 16 != 0:
         fam = [x for x in fam if x[0].startswith("seeded")]
     for name, c in fam:
-        effect_checks(p, name, c)
-        twice_checks(p, name, c)
-        cleanup_history_check(p, name, c)
-        user_pass_checks(p, name, c)
+        for fn in (effect_checks, twice_checks, cleanup_history_check, user_pass_checks):
+            try:
+                fn(p, name, c)
+            except Exception as e:  # noqa: BLE001
+                if not report.raised_in_library(e):
+                    raise
+                # a pass refused a well-formed circuit
+                p.case(("pass-raises", circ.snapshot(c)[:3], fn.__name__))
+                p.violation(f"pass-raises:{type(e).__name__}", f"a simplification pass raised {type(e).__name__}: {e} on {circ.describe(c)} (during {fn.__name__})",
+                            REPLAY_HEAD + circ.circ_src(c) + "\nbad=[]\nfor s in ['RRG()', 'RRG(allow_inputs_removal=True)', 'MU()', 'MD()', 'ME()', 'cleanup(False)', 'cleanup(True)', '(MU() | MD() | ME())']:\n"
+                            "    try:\n        apply_spec(s, c)\n    except Exception as e:\n        bad.append((s, type(e).__name__))\nprint(bad); sys.exit(1 if bad else 0)\n")
+                break
         for spec in rnd.sample(specs, min(len(specs), 8 if tier == "quick" else 25)) + [rnd.choice(passes.ONE_SHOT)]:
             if ("ME()" in spec or spec == "cleanup(True)") and len(c.inputs) > 6:
                 continue
